@@ -269,6 +269,14 @@ let handle (toks : string list) =
     check "prop" ("SCHED." ^ label) (code = N0)
       (fun () -> Printf.sprintf "maxMemory=%s clause=%s (1 length, 2 not-a-leaf-added-here-and-deleted-later/dup/unsorted, 3 over memory, 4 incomplete) schedule=%s"
           maxmem (string_of_n code) sch)
+  | ["EVICT"; label; maxmem; t; sch] ->
+    (* mirror of the eviction loop: schedule = model(ttls) *)
+    let ttls = List.map (fun b -> List.map (fun e -> match String.split_on_char ':' e with
+        | [p; v] -> (n_of_string p, zz_of_string v) | _ -> failwith "ttl") (split_list b)) (String.split_on_char '|' t) in
+    let sch' = List.map ns_of (String.split_on_char '|' sch) in
+    check "mirror" ("EVICT." ^ label) (check_schedule (nat_of_int (int_of_string maxmem)) ttls sch')
+      (fun () -> Printf.sprintf "maxMemory=%s ttls=%s impl=%s" maxmem t sch);
+    check "prop" ("TTLOK." ^ label) (ttl_okb ttls) (fun () -> Printf.sprintf "ttl list not well-formed (ttl<1 or duplicate position): %s" t)
   | ["TTLS"; label; t] ->
     let got = List.map (fun b -> List.sort compare (List.map (fun (p, h) -> (string_of_n p, h)) 
                 (List.map (fun e -> match String.split_on_char ':' e with [p; v] -> (n_of_string p, v) | _ -> failwith "ttl") (split_list b))))
